@@ -440,6 +440,15 @@ pub fn verif_dir() -> std::path::PathBuf {
         .unwrap_or_else(|_| std::path::PathBuf::from("/verif"))
 }
 
+/// `evidence` / `replays` under the verif dir, or under VERIF_OUT_DIR when set (used when a
+/// check is run against a deliberately broken tree, so the committed evidence stays as is)
+fn out_dir(name: &str) -> std::path::PathBuf {
+    match std::env::var("VERIF_OUT_DIR") {
+        Ok(d) => std::path::PathBuf::from(d).join(name),
+        Err(_) => verif_dir().join(name),
+    }
+}
+
 fn load_known() -> Vec<(String, String, String)> {
     let p = verif_dir().join("known_findings.json");
     let Ok(s) = std::fs::read_to_string(p) else {
@@ -693,7 +702,7 @@ pub fn check(p: &dyn Property, tier: Tier, seed: u64) -> i32 {
 }
 
 fn write_replay(meta: &Meta, tier: Tier, seed: u64, v: &Value) -> String {
-    let dir = verif_dir().join("replays");
+    let dir = out_dir("replays");
     let _ = std::fs::create_dir_all(&dir);
     let idx = v["idx"].as_u64().unwrap_or(0);
     let fp = v["fingerprint"].as_str().unwrap_or("");
@@ -820,7 +829,7 @@ fn finish(p: &dyn Property, tier: Tier, seed: u64, total: u64, agg: Agg, t0: Ins
         "wall_s": (wall * 100.0).round() / 100.0,
         "violations": new_violations,
     });
-    let evdir = verif_dir().join("evidence");
+    let evdir = out_dir("evidence");
     let _ = std::fs::create_dir_all(&evdir);
     let _ = std::fs::write(
         evdir.join(format!("{}.json", meta.id)),
